@@ -124,8 +124,10 @@ Fixpoint month_loop (md : mode) (fuel : nat) (months remdays : Z) : option (Z * 
       else Some (months, remdays)
   end.
 
-(** datetime.rs lines 264-328, from `(t, nanos)` to the struct. *)
-Definition from_parts (md : mode) (t nanos : Z) : option datetime :=
+(** datetime.rs lines 264-328 in five contiguous blocks, composed in source order by [from_parts]. *)
+
+(** lines 272-277: (days since LEAPOCH's day, second of the day). *)
+Definition day_split (md : mode) (t : Z) : option (Z * Z) :=
   (* let mut days: i64 = (t / 86_400) - (LEAPOCH / 86_400); *)
   d0 <- div I64 t 86400 ;;
   lq <- div I64 LEAPOCH 86400 ;;
@@ -134,11 +136,14 @@ Definition from_parts (md : mode) (t nanos : Z) : option datetime :=
   r0 <- rem I64 t 86400 ;;
   remsecs <- m_cast md I32 r0 ;;
   (* if remsecs < 0i32 { remsecs += 86_400; days -= 1 } *)
-  '(remsecs, days) <- (if remsecs <? 0 then
-                         rs <- add md I32 remsecs 86400 ;;
-                         dd <- sub md I64 days 1 ;;
-                         Some (rs, dd)
-                       else Some (remsecs, days)) ;;
+  if remsecs <? 0 then
+    remsecs <- add md I32 remsecs 86400 ;;
+    days <- sub md I64 days 1 ;;
+    Some (days, remsecs)
+  else Some (days, remsecs).
+
+(** lines 279-284: (400-year cycle number, day within the cycle). *)
+Definition cycle_split (md : mode) (days : Z) : option (Z * Z) :=
   (* let mut qc_cycles: i32 = (days / i64::from(DAYS_PER_400Y)) as i32; *)
   d400 <- m_cast md I64 DAYS_PER_400Y ;;
   qc0 <- div I64 days d400 ;;
@@ -148,11 +153,14 @@ Definition from_parts (md : mode) (t nanos : Z) : option datetime :=
   rd0 <- rem I64 days d400 ;;
   remdays <- m_cast md I32 rd0 ;;
   (* if remdays < 0 { remdays += DAYS_PER_400Y; qc_cycles -= 1; } *)
-  '(remdays, qc_cycles) <- (if remdays <? 0 then
-                              rd <- add md I32 remdays DAYS_PER_400Y ;;
-                              qc <- sub md I32 qc_cycles 1 ;;
-                              Some (rd, qc)
-                            else Some (remdays, qc_cycles)) ;;
+  if remdays <? 0 then
+    remdays <- add md I32 remdays DAYS_PER_400Y ;;
+    qc_cycles <- sub md I32 qc_cycles 1 ;;
+    Some (qc_cycles, remdays)
+  else Some (qc_cycles, remdays).
+
+(** lines 286-302: (c_cycles, q_cycles, remyears, day within the year starting 1 March). *)
+Definition in_cycle (md : mode) (remdays : Z) : option (Z * Z * Z * Z) :=
   (* let mut c_cycles: i32 = remdays / DAYS_PER_100Y; if c_cycles == 4 { c_cycles -= 1; } *)
   c_cycles <- div I32 remdays DAYS_PER_100Y ;;
   c_cycles <- (if c_cycles =? 4 then sub md I32 c_cycles 1 else Some c_cycles) ;;
@@ -171,6 +179,10 @@ Definition from_parts (md : mode) (t nanos : Z) : option datetime :=
   (* remdays -= remyears * 365; *)
   x <- mul md I32 remyears 365 ;;
   remdays <- sub md I32 remdays x ;;
+  Some (c_cycles, q_cycles, remyears, remdays).
+
+(** lines 304-307. *)
+Definition years_of (md : mode) (remyears q_cycles c_cycles qc_cycles : Z) : option Z :=
   (* let mut years: i64 = i64::from(remyears) + 4 * i64::from(q_cycles)
                           + 100 * i64::from(c_cycles) + 400 * i64::from(qc_cycles); *)
   a <- m_cast md I64 remyears ;;
@@ -182,9 +194,10 @@ Definition from_parts (md : mode) (t nanos : Z) : option datetime :=
   abc <- add md I64 ab c ;;
   d <- m_cast md I64 qc_cycles ;;
   d <- mul md I64 400 d ;;
-  years <- add md I64 abc d ;;
-  (* let mut months: i32 = 0; while ... *)
-  '(months, remdays) <- month_loop md (S (length DAYS_IN_MONTH)) 0 remdays ;;
+  add md I64 abc d.
+
+(** lines 315-328. *)
+Definition finish (md : mode) (years months remdays remsecs nanos : Z) : option datetime :=
   (* if months >= 10 { months -= 12; years += 1; } *)
   '(months, years) <- (if 10 <=? months then
                          mo <- sub md I32 months 12 ;;
@@ -207,6 +220,15 @@ Definition from_parts (md : mode) (t nanos : Z) : option datetime :=
   se <- rem I32 remsecs 60 ;;
   se <- m_cast md U8 se ;;
   Some (DT ye mo da ho mi se nanos).
+
+Definition from_parts (md : mode) (t nanos : Z) : option datetime :=
+  '(days, remsecs) <- day_split md t ;;
+  '(qc_cycles, remdays) <- cycle_split md days ;;
+  '(c_cycles, q_cycles, remyears, remdays) <- in_cycle md remdays ;;
+  years <- years_of md remyears q_cycles c_cycles qc_cycles ;;
+  (* let mut months: i32 = 0; while ... *)
+  '(months, remdays) <- month_loop md (S (length DAYS_IN_MONTH)) 0 remdays ;;
+  finish md years months remdays remsecs nanos.
 
 (** `DateTime::from(timestamp)`. *)
 Definition from_systemtime (md : mode) (tv_sec tv_nsec : Z) : option datetime :=
